@@ -9,7 +9,8 @@ TEXT = ('Decibels::as_amplitude returns literal 1.0 on == 0.0 and literal 0.0 on
         'with a raw unsigned `-` (saturating_sub instead); ClockTime::partial_cmp yields None across clocks and compares '
         'ticks before fraction; every fraction stored by ClockTime Add/Sub arithmetic lies in [0, 1) by a rounding-aware interval evaluation; a mapping clamps before easing. Monotonicity, agreement with 10^(dB/20), round trips and '
         'easing shapes are exhaustive-value statements and are not decided.'
-        ' The compound-assignment operators of ClockTime use their operand.')
+        ' The compound-assignment operators of ClockTime use their operand.'
+        ' Tick counts are subtracted with saturating_sub; every known fraction of a constructed ClockTime lies in [0, 1).')
 TECHNIQUE = 'MIR path-predicate / table rules + interval abstract interpretation of stored values'
 
 
@@ -118,6 +119,16 @@ def sub(F, R):
                     ty = (a.get('pl') or a).get('ty')
                     if ty == 'u64':
                         raw.append(describe_rv(b, s['rv'], at=bb))
+            # ... and the tick count it stores comes out of saturating_sub (or out of the sibling operator)
+            tick_vals = []
+            for bb, si, s in b.stmts():
+                if s['k'] == 'assign' and s['rv']['k'] == 'agg' and s['rv'].get('adt') == 'clock::time::ClockTime':
+                    tick_vals.append(describe(b, s['rv']['ops'][s['rv']['fields'].index('ticks')], depth=6, at=bb))
+                elif s['k'] == 'assign' and s['lhs']['p'] and pretty_place(b, s['lhs']) == '(*self).ticks':
+                    tick_vals.append(describe_rv(b, s['rv'], depth=6, at=bb))
+            unsat = [d for d in tick_vals if 'saturating_sub(' not in d]
+            if unsat and not raw:
+                raw = ['ticks = ' + unsat[0][:80]]
             R.check(not raw, 'B.C19.sub', it['path'],
                     '%s subtracts tick counts with a raw unsigned `-` (%s): ClockTime{ticks: 1} - 2 overflows (panic in debug, wraps to '
                     '2^64-1 in release) while the f64 sibling saturates' % (it['path'], raw), detail={'impl': im['trait_ref']}, where=b.file)
@@ -192,6 +203,20 @@ def frac(F, R):
                         'breaks the ordering against ticks + fraction)' % (it['path'], d[:140], worst),
                         detail={'value': d[:160], 'range': '[0, 1)'}, where=b.where(bb))
     R.floor('B.C19.frac', n, 4)
+    # every other construction of a ClockTime in the crate: a fraction that is a known value lies within [0, 1) as well
+    # (values read back from the shared atomics or copied from another time evaluate to "unknown" and are not judged)
+    for b in F.bodies:
+        if b.krate != 'kira' or b.path.startswith('<clock::time::ClockTime as std::ops::'):
+            continue
+        for bb, si, s in b.stmts():
+            if s['k'] == 'assign' and s['rv']['k'] == 'agg' and s['rv'].get('adt') == 'clock::time::ClockTime':
+                d = describe(b, s['rv']['ops'][s['rv']['fields'].index('fraction')], depth=6, at=bb)
+                iv = evaluate(d, {}, inv)
+                known = iv.lo != float('-inf') and iv.hi != float('inf')
+                if known:
+                    R.check(iv.within(unit), 'B.C19.frac', 'ctor:%s' % b.path,
+                            '%s builds a ClockTime whose fraction is %s (%s): not within [0, 1)' % (b.path, d[:60], iv),
+                            detail={'value': d[:80]}, where=b.where(bb))
 
 
 def cmp_(F, R):
